@@ -86,9 +86,15 @@ def gen_loaded(rng, small=False):
     ant = antgen.gen_antenna(rng, max_pulses=14 if small else 22)
     if rng.random() < 0.25 and ant['family'] in ('vee', 'ell', 'tee', 'star', 'monopole_top'):
         ant['wires'][0]['nseg'] = 1 if not ant['ground'] else ant['wires'][0]['nseg']
-    m = antgen.build(ant)
+    media = None
+    if ant['ground'] and rng.random() < 0.5:
+        from mininec.mininec import Medium
+        media = [Medium(rng.uniform(3, 30), 10 ** rng.uniform(-3, -1))]
+        if rng.random() < 0.5:
+            media = [Medium(13.0, 0.005, coord=rng.uniform(5, 20)), Medium(5.0, 0.001, height=0)]
+    m = antgen.build(ant, media=media)
     N = len(m.pulses)
-    desc = []
+    desc = ['real-ground' if media else ('ideal-ground' if ant['ground'] else 'free')]
     nl = rng.randint(1, 4)
     for i in range(nl):
         k = rng.choice(['imp', 'imp', 'rlc', 'trap', 'laplace'])
@@ -176,10 +182,11 @@ def property_distributed(m):
     return None
 
 
-def property_feed_shift(ant, p, zl):
-    from mininec.mininec import Impedance_Load, Excitation
-    m0 = antgen.build(ant); m0.register_source(Excitation(1 + 0j), p); m0.compute()
-    m1 = antgen.build(ant); m1.register_source(Excitation(1 + 0j), p)
+def property_feed_shift(ant, p, zl, real_ground=False):
+    from mininec.mininec import Impedance_Load, Excitation, Medium
+    media = (lambda: [Medium(13.0, 0.005)]) if real_ground else (lambda: None)
+    m0 = antgen.build(ant, media=media()); m0.register_source(Excitation(1 + 0j), p); m0.compute()
+    m1 = antgen.build(ant, media=media()); m1.register_source(Excitation(1 + 0j), p)
     m1.register_load(Impedance_Load(zl), p); m1.compute()
     cn = antgen.cond(m0)
     if cn > 1e5:
@@ -194,7 +201,7 @@ def property_feed_shift(ant, p, zl):
 def replay(rp):
     k = rp.get('kind')
     if k == 'feed-shift':
-        bad = property_feed_shift(rp['ant'], rp['pulse'], complex(*rp['zl']))
+        bad = property_feed_shift(rp['ant'], rp['pulse'], complex(*rp['zl']), rp.get('real_ground', False))
     elif k == 'distributed':
         import random
         rng = random.Random(rp['gen_seed'])
@@ -299,10 +306,11 @@ def run(ck):
         g = [k for k, p in enumerate(m.pulses) if p.ground.any()]
         p = crng.choice(g) if (g and j % 2 == 0) else crng.randrange(N)
         zl = complex(crng.uniform(1, 500), crng.uniform(-500, 500))
-        bad = property_feed_shift(ant, p, zl)
+        rg = bool(ant['ground'] and j % 4 == 0)
+        bad = property_feed_shift(ant, p, zl, rg)
         ck.case(('corpus-feed', j), True)
         if bad:
-            viol.append(dict(kind='feed-shift', ant=ant, pulse=p, zl=[zl.real, zl.imag], observed=bad))
+            viol.append(dict(kind='feed-shift', ant=ant, pulse=p, zl=[zl.real, zl.imag], real_ground=rg, observed=bad + (' (over real ground)' if rg else '')))
     ck.stats['disagreements'] = len(dis)
     ck.cov['rule'] = ('lumped loads: R/L/C log-uniform over 12 decades incl. None and 0, f 0.1..1000 MHz, random Laplace '
                       'coefficient arrays of length 1-4; loaded antennas: 1-4 lumped loads attached by absolute pulse, per-object '
@@ -319,6 +327,17 @@ def run(ck):
                 continue
             r2 = random.Random(dg['gen_seed'])
             ant, m, desc = gen_loaded(r2, small=dg['small'])
+            if 'wires' in ant:
+                for pu in m.pulses:
+                    if pu.ground.any() or pu.idx == 0:
+                        bad = property_feed_shift(ant, pu.idx, complex(37.0, -21.0), desc[0] == 'real-ground')
+                        if bad:
+                            ck.violation(dict(kind='feed-shift', ant=ant, pulse=pu.idx, zl=[37.0, -21.0], real_ground=(desc[0] == 'real-ground'),
+                                              observed=bad, disagreement=dg['why']))
+                            found = True
+                            break
+                if found:
+                    break
             try:
                 m.compute()
                 bad = property_distributed(m)
